@@ -366,6 +366,50 @@ def runSpec : Spec → List Op → Option (List Out × Spec)
       | none => none
       | some (os, σ'') => some (o :: os, σ'')
 
+/-! ### scripts on the fixed-size table with explicit calls of `Double` -/
+
+inductive OpD where
+  | base (o : Op)
+  | double
+
+def stepTD (h : Nat → Nat) (t : Table) : OpD → Option (Option Out × Table)
+  | .base o =>
+    match stepT h t o with
+    | some (r, t') => some (some r, t')
+    | none => none
+  | .double =>
+    match double h t with
+    | some t' => some (none, t')
+    | none => none
+
+def runTD (h : Nat → Nat) : Table → List OpD → Option (List (Option Out) × Table)
+  | t, [] => some ([], t)
+  | t, op :: ops =>
+    match stepTD h t op with
+    | none => none
+    | some (o, t') =>
+      match runTD h t' ops with
+      | none => none
+      | some (os, t'') => some (o :: os, t'')
+
+/-- specification: `Double` doubles the capacity and changes nothing else -/
+def stepSpecD (σ : Spec) : OpD → Option (Option Out × Spec)
+  | .base o =>
+    match stepSpec σ o with
+    | some (r, σ') => some (some r, σ')
+    | none => none
+  | .double => some (none, { σ with N := 2 * σ.N })
+
+def runSpecD : Spec → List OpD → Option (List (Option Out) × Spec)
+  | σ, [] => some ([], σ)
+  | σ, op :: ops =>
+    match stepSpecD σ op with
+    | none => none
+    | some (o, σ') =>
+      match runSpecD σ' ops with
+      | none => none
+      | some (os, σ'') => some (o :: os, σ'')
+
 /-- one operation on `AutoProbing` -/
 def stepA (h : Nat → Nat) (θ : Nat → Nat) (a : Auto) : Op → Option (Out × Auto)
   | .insert k v =>
